@@ -340,10 +340,20 @@ pub fn render_fancy(g: &AG, rng: &mut Rng, o: &YOpts) -> RenderedY {
                 let (txt, _) = tok_text(g, *t, w.rng, true);
                 w.t.push_str(&txt);
                 w.hgap();
-                if e.contains('"') && !e.contains('\'') && w.rng.chance(1, 2) {
-                    w.t.push_str(&format!("'{e}'"));
+                // either delimiter; the delimiter must be escaped inside, the other quote may be
+                let esc_other = w.rng.chance(1, 2);
+                if w.rng.chance(1, 2) {
+                    let mut body = e.replace('\'', "\\'");
+                    if esc_other {
+                        body = body.replace('"', "\\\"");
+                    }
+                    w.t.push_str(&format!("'{body}'"));
                 } else {
-                    w.t.push_str(&format!("\"{}\"", e.replace('"', "\\\"")));
+                    let mut body = e.replace('"', "\\\"");
+                    if esc_other {
+                        body = body.replace('\'', "\\'");
+                    }
+                    w.t.push_str(&format!("\"{body}\""));
                 }
             }
             D::Param => {
